@@ -309,6 +309,56 @@ def _names_read(nodes) -> set[str]:
     return live
 
 
+def _search_shape(body: list) -> bool:
+    """pre-statements without a return, one loop whose returns sit at its own level (not inside an inner loop), and a
+    final `return e0` with a side-effect-free e0 that the loop does not rebind"""
+    if len(body) < 2 or not isinstance(body[-1], ast.Return) or body[-1].value is None or not _simple(body[-1].value):
+        return False
+    loop = body[-2]
+    if not isinstance(loop, (ast.For, ast.While)) or loop.orelse:
+        return False
+    if any(isinstance(n, ast.Return) for st in body[:-2] for n in ast.walk(st)):
+        return False
+
+    def ok(stmts, depth):
+        for st in stmts:
+            if isinstance(st, ast.Return):
+                if depth > 0 or st.value is None:
+                    return False
+            elif isinstance(st, (ast.For, ast.While)):
+                if not ok(st.body, depth + 1) or not ok(st.orelse, depth + 1):
+                    return False
+            elif isinstance(st, ast.If):
+                if not ok(st.body, depth) or not ok(st.orelse, depth):
+                    return False
+            elif isinstance(st, (ast.With, ast.Try, ast.Match)):
+                if any(isinstance(n, ast.Return) for n in ast.walk(st)):
+                    return False
+        return True
+
+    if not ok(loop.body, 0):
+        return False
+    e0_names = {n.id for n in ast.walk(body[-1].value) if isinstance(n, ast.Name)}
+    return not (_stores([loop]) & e0_names)
+
+
+def _returns_to_breaks(loop, target) -> None:
+    def rewrite(stmts):
+        out = []
+        for st in stmts:
+            if isinstance(st, ast.Return):
+                a = ast.Assign(targets=[copy.deepcopy(target)], value=st.value)
+                out.extend([ast.copy_location(a, st), ast.copy_location(ast.Break(), st)])
+                continue
+            if isinstance(st, ast.If):
+                st.body = rewrite(st.body)
+                st.orelse = rewrite(st.orelse)
+            out.append(st)
+        return out
+
+    loop.body = rewrite(loop.body)
+
+
 class _Inliner:
     def __init__(self, helpers: dict[str, ast.FunctionDef]):
         self.helpers = helpers
@@ -351,6 +401,20 @@ class _Inliner:
                     if body is not None:
                         self.count += 1
                         return self.block(body, rest)
+                elif isinstance(st, ast.Assign) and len(st.targets) == 1 and len(rets) >= 2 and _search_shape(hb):
+                    # (S) search helper: `for ..: if c: return e1` + `return e0`  ->  `x = e0; for ..: if c: x = e1; break`
+                    tg = {n.id for n in ast.walk(st.targets[0]) if isinstance(n, ast.Name)}
+                    body = _inlined_body(h, call, live - tg)
+                    if body is not None and _search_shape(body):
+                        *pre, loop, last = body
+                        first = ast.Assign(targets=[copy.deepcopy(st.targets[0])], value=last.value)
+                        _returns_to_breaks(loop, st.targets[0])
+                        self.count += 1
+                        new_stmts = pre + [first, loop]
+                        for x_ in new_stmts:
+                            ast.copy_location(x_, st)
+                            ast.fix_missing_locations(x_)
+                        return self.block(pre, [first, loop] + rest) + [first] + self.block([loop], rest)
                 elif isinstance(st, (ast.Assign, ast.AnnAssign)) and len(rets) == 1 and hb and rets[0] is hb[-1] and rets[0].value is not None:
                     tg = {n.id for t in (st.targets if isinstance(st, ast.Assign) else [st.target]) for n in ast.walk(t) if isinstance(n, ast.Name)}
                     body = _inlined_body(h, call, live - tg)
